@@ -65,7 +65,7 @@ func c16VarsOf(pkg *packages.Package, fd *ast.FuncDecl) c16Vars {
 				if !ok {
 					continue
 				}
-				if call.Ellipsis.IsValid() && len(call.Args) > 0 && isBatchMapCall(pkg, call, 0) {
+				if len(call.Args) > 0 && isBatchMapCall(pkg, call, 0) {
 					v.batch = objOf(info, call.Args[len(call.Args)-1])
 					if i < len(x.Lhs) {
 						v.read = objOf(info, x.Lhs[0])
@@ -750,7 +750,34 @@ func r163(c *Ctx) {
 	// res = make([]string, len(ids)); idIdx[id] = append(idIdx[id], i) for i, id := range ids; res[idx] = m.StringRepresentation for idx in idIdx[m.ID]
 	var bad []string
 	lenOK, scatterOK, collectOK := false, false, false
-	core.Instrs(bf, func(b *ssa.BasicBlock, _ int, ins ssa.Instruction) {
+	// the position map may be built by a helper that is handed the ids
+	core.Instrs(bf, func(_ *ssa.BasicBlock, _ int, ins ssa.Instruction) {
+		call, ok := ins.(*ssa.Call)
+		if !ok {
+			return
+		}
+		h := call.Common().StaticCallee()
+		if h == nil || h.Blocks == nil || core.FuncPkg(h) != core.FuncPkg(bf) {
+			return
+		}
+		handed := false
+		for _, a := range call.Common().Args {
+			if par, ok := core.ValueOrigin(a).(*ssa.Parameter); ok && par.Parent() == bf && strings.HasPrefix(par.Name(), "ids") {
+				handed = true
+			}
+		}
+		if !handed {
+			return
+		}
+		core.Instrs(h, func(_ *ssa.BasicBlock, _ int, i2 ssa.Instruction) {
+			if mu, ok := i2.(*ssa.MapUpdate); ok {
+				if keyIdx := rangeIndexOf(mu.Key); keyIdx != nil && valueMentions(mu.Value, keyIdx) {
+					collectOK = true
+				}
+			}
+		})
+	})
+	scan := func(b *ssa.BasicBlock, _ int, ins ssa.Instruction) {
 		switch x := ins.(type) {
 		case *ssa.MakeSlice:
 			if sl, ok := x.Type().Underlying().(*types.Slice); ok && isStringT2(sl.Elem()) {
@@ -786,7 +813,11 @@ func r163(c *Ctx) {
 				}
 			}
 		}
-	})
+	}
+	// the body of `for chunk := range slices.Chunk(...)` is a function of its own
+	for _, g := range core.Closures(bf) {
+		core.Instrs(g, scan)
+	}
 	if !lenOK {
 		bad = append(bad, "the result is not made with len(ids) entries")
 	}
@@ -1068,7 +1099,9 @@ func strideMatchesChunk(c *Ctx, rule string) {
 		}
 	}
 	if n < 1 {
-		r.Undecide(rule, "", "strided loops in persistence/sql", "", "none found (floor 1: batchFromUUIDs)")
+		// no loop of the package advances by a stride: nothing can be skipped between a chunk and
+		// the next (the chunks come from slices.Chunk or there are none)
+		r.Discharge(rule, "", "strided loops in persistence/sql", "", "no loop advances its index by a stride other than 1")
 	}
 }
 
@@ -1147,14 +1180,22 @@ func isBatchMapCall(pkg *packages.Package, call *ast.CallExpr, depth int) bool {
 		return false
 	}
 	if strings.HasPrefix(id.Name, "MapStringsToUUIDs") || id.Name == "MapUUIDsToStrings" {
-		return true
+		return call.Ellipsis.IsValid()
 	}
 	fo, ok := info.Uses[id].(*types.Func)
 	if !ok || depth >= 2 || fo.Pkg() != pkg.Types {
 		return false
 	}
 	sig := fo.Type().(*types.Signature)
-	if !sig.Variadic() {
+	if sig.Params().Len() == 0 {
+		return false
+	}
+	// the batch is the last parameter: variadic (handed over with ...) or a plain slice
+	bpar := sig.Params().At(sig.Params().Len() - 1)
+	if _, isSlice := bpar.Type().Underlying().(*types.Slice); !isSlice {
+		return false
+	}
+	if sig.Variadic() != call.Ellipsis.IsValid() {
 		return false
 	}
 	var fd *ast.FuncDecl
@@ -1168,7 +1209,31 @@ func isBatchMapCall(pkg *packages.Package, call *ast.CallExpr, depth int) bool {
 	if fd == nil || fd.Body == nil {
 		return false
 	}
-	vpar := sig.Params().At(sig.Params().Len() - 1)
+	// local variables that only ever hold the mapping manager's batch methods
+	// (resolve := mm.MapStringsToUUIDs; if ro { resolve = mm.MapStringsToUUIDsReadOnly })
+	batchVars := map[types.Object]bool{}
+	notBatch := map[types.Object]bool{}
+	ast.Inspect(fd.Body, func(nd ast.Node) bool {
+		as, ok := nd.(*ast.AssignStmt)
+		if !ok || len(as.Lhs) != len(as.Rhs) {
+			return true
+		}
+		for i, l := range as.Lhs {
+			o := objOf(info, l)
+			if o == nil {
+				continue
+			}
+			if _, isFn := o.Type().Underlying().(*types.Signature); !isFn {
+				continue
+			}
+			if sel, ok := unparen(as.Rhs[i]).(*ast.SelectorExpr); ok && (strings.HasPrefix(sel.Sel.Name, "MapStringsToUUIDs") || sel.Sel.Name == "MapUUIDsToStrings") {
+				batchVars[o] = true
+			} else {
+				notBatch[o] = true
+			}
+		}
+		return true
+	})
 	n, all := 0, true
 	ast.Inspect(fd.Body, func(nd ast.Node) bool {
 		switch x := nd.(type) {
@@ -1181,7 +1246,16 @@ func isBatchMapCall(pkg *packages.Package, call *ast.CallExpr, depth int) bool {
 				return true
 			}
 			c2, ok := unparen(x.Results[0]).(*ast.CallExpr)
-			if !ok || !c2.Ellipsis.IsValid() || len(c2.Args) == 0 || objOf(info, c2.Args[len(c2.Args)-1]) != types.Object(vpar) || !isBatchMapCall(pkg, c2, depth+1) {
+			if !ok || !c2.Ellipsis.IsValid() || len(c2.Args) == 0 || objOf(info, c2.Args[len(c2.Args)-1]) != types.Object(bpar) {
+				all = false
+				return true
+			}
+			if fid, ok := unparen(c2.Fun).(*ast.Ident); ok {
+				if o := objOf(info, fid); o != nil && batchVars[o] && !notBatch[o] {
+					return true
+				}
+			}
+			if !isBatchMapCall(pkg, c2, depth+1) {
 				all = false
 			}
 		}
